@@ -65,12 +65,12 @@ def HypsL (thr : Rat) : Rat → Rat → List (Rat × BcSnap) → Prop
 theorem floor_add_frac (x : Rat) : x = ((ffloor x : Int) : Rat) + frac x := by
   unfold frac ffloor; ring
 
-theorem frac_nonneg (x : Rat) : 0 ≤ frac x := by
+theorem rs_frac_nonneg (x : Rat) : 0 ≤ frac x := by
   unfold frac
   have := Rat.floor_le x
   linarith
 
-theorem frac_lt_one (x : Rat) : frac x < 1 := by
+theorem rs_frac_lt_one (x : Rat) : frac x < 1 := by
   unfold frac
   have := Rat.lt_floor_add_one x
   push_cast at this
@@ -83,17 +83,17 @@ theorem ffloor_nonneg {x : Rat} (h : 0 ≤ x) : 0 ≤ ffloor x := by
 theorem frac_one : frac 1 = 0 := by decide +kernel
 theorem ffloor_one : ffloor 1 = 1 := by decide +kernel
 
-theorem beatLen_pos {bpm : Rat} (h : 0 < bpm) : 0 < beatLen bpm := by
+theorem rs_beatLen_pos {bpm : Rat} (h : 0 < bpm) : 0 < beatLen bpm := by
   unfold beatLen minToMsec; exact div_pos (by norm_num) h
 
 theorem od_meas {o0 o1 D bpm met : Rat} (hb : 0 < bpm) (hm : 0 < met) (h : o1 = o0 + D * beatLen bpm) :
     (o1 - o0) / measLen bpm met = D / met := by
-  have := beatLen_pos hb
+  have := rs_beatLen_pos hb
   subst h; unfold measLen; field_simp; ring
 
 theorem od_beat {o0 o1 D bpm : Rat} (hb : 0 < bpm) (h : o1 = o0 + D * beatLen bpm) :
     (o1 - o0) / beatLen bpm = D := by
-  have := beatLen_pos hb
+  have := rs_beatLen_pos hb
   subst h; field_simp; ring
 
 /-- second pass after branch 1 inserted the stretched point: exactly one (stretched) measure is left -/
@@ -235,7 +235,7 @@ theorem macro_step (thr : Rat) (hthr : 0 ≤ thr) (done : List BcSnap) (doneO : 
           simp only [Except.bind, List.append_assoc, List.cons_append, List.nil_append]
     · -- no branch: the remainder is zero
       have hr0 : frac (D / cur.met) = 0 := by
-        have := frac_nonneg (D / cur.met)
+        have := rs_frac_nonneg (D / cur.met)
         by_contra hne
         exact c1 ⟨lt_of_le_of_ne this (Ne.symm hne), not_lt.mp c3⟩
       have c2 : ¬ (0 < frac D ∧ frac D ≤ thr) := fun h => hI.no_b2 ⟨c1, h⟩
